@@ -275,6 +275,49 @@ def run_impl(case, mgr=None):
     return out, problems
 
 
+# ------------------------------------------------------------ hang guard
+class Hung(Exception):
+    pass
+
+
+class deadline:
+    """ the real RESULTS_STORE_LOCK is not re-entrant: code that asks for it
+    while holding it blocks for ever.  Turn that into an exception, and
+    leave the lock free for whatever runs next. """
+    def __init__(self, seconds, what):
+        self.seconds, self.what = seconds, what
+
+    def __enter__(self):
+        import signal
+
+        def on_alarm(*_a):
+            raise Hung(f"{self.what}: no progress for {self.seconds} s "
+                       "(blocked on the results-store lock?)")
+        self.old = signal.signal(signal.SIGALRM, on_alarm)
+        signal.alarm(self.seconds)
+        return self
+
+    def __exit__(self, etype, *_a):
+        import signal
+        signal.alarm(0)
+        signal.signal(signal.SIGALRM, self.old)
+        if etype is not None:
+            free_store_lock()
+        return False
+
+
+def free_store_lock():
+    import searchkit.results_store as RS
+    lock = RS.RESULTS_STORE_LOCK
+    if lock.acquire(timeout=0.2):
+        lock.release()
+        return
+    try:
+        lock.release()          # left behind by a blocked / killed holder
+    except ValueError:
+        pass
+
+
 # ------------------------------------------------------------ real forks
 def fork_scenario(rng, n):
     bsize = [4, 2, 1000][n % 3] if n < 3 else rng.choice([2, 3, 4, 1000])
@@ -321,13 +364,18 @@ def fork_after_use(mgr, bsize, pre, children, post):
              for k, vals in enumerate(children)]
     for p in procs:
         p.start()
-    for v in post:
-        handed.append([st.add(None, None, v)[2], v])
-    st.sync()
+    parent_error = None
+    try:
+        with deadline(20, "creator's adds + sync"):
+            for v in post:
+                handed.append([st.add(None, None, v)[2], v])
+            st.sync()
+    except Exception as exc:  # pylint: disable=broad-except
+        parent_error = f"{type(exc).__name__}: {exc}"
     kids = {}
     try:
         for _ in procs:
-            k, status, got, msg = q.get(timeout=60)
+            k, status, got, msg = q.get(timeout=30)
             kids[k] = {'status': status, 'handed': got, 'message': msg}
     except queue.Empty:
         pass
@@ -338,7 +386,8 @@ def fork_after_use(mgr, bsize, pre, children, post):
     for k in range(len(children)):
         kids.setdefault(k, {'status': 'no-answer', 'handed': [],
                             'message': ''})
-    return {'parent': handed,
+    free_store_lock()
+    return {'parent': handed, 'parent_error': parent_error,
             'children': [kids[k] for k in range(len(children))],
             'shared': dict(st.data)}
 
@@ -349,6 +398,8 @@ def judge_fork(obs):
     worker that is REFUSED (ResultStoreException) was handed nothing and is
     fine. """
     bad = []
+    if obs.get('parent_error'):
+        bad.append(f"creating process: {obs['parent_error']}")
     owners = {}
     who = [('parent', obs['parent'])] + [
         (f"worker {k}", c['handed']) for k, c in enumerate(obs['children'])]
@@ -365,7 +416,7 @@ def judge_fork(obs):
         if c['status'] == 'refused' and c['handed']:
             bad.append(f"worker {k} was refused after being handed "
                        f"{c['handed']}")
-    done = [('parent', obs['parent'])] + [
+    done = ([] if obs.get('parent_error') else [('parent', obs['parent'])]) + [
         (f"worker {k}", c['handed']) for k, c in enumerate(obs['children'])
         if c['status'] == 'ok']
     for name, pairs in done:
@@ -499,13 +550,23 @@ def run(chk):
     mgr = None
     outs, coq_cases, wants, ran = [], [], [], []
     seen = set()
+    hangs = 0
     try:
         for c in cases:
             if c['kind'] == 2 and mgr is None:
                 mgr = multiprocessing.Manager()
             try:
-                out, problems = run_impl(c, mgr)
+                if c['kind'] == 2:
+                    if hangs >= 2:          # do not wait for the same hang
+                        chk.dist('manager-backed-histories-skipped-after-hangs')
+                        continue
+                    with deadline(10 if len(c['ops']) < 200 else 60,
+                                  "manager-backed history"):
+                        out, problems = run_impl(c, mgr)
+                else:
+                    out, problems = run_impl(c, mgr)
             except Exception as exc:  # pylint: disable=broad-except
+                hangs += isinstance(exc, Hung)
                 chk.violation(
                     f"store-raised kind={c['kind']} bsize={c['bsize']}: "
                     f"{type(exc).__name__}",
@@ -554,6 +615,35 @@ def run(chk):
                 chk.dist('value-equals-own-tag-or-seq')
             if any(x is None for o in ids for x in o):
                 chk.dist('has-None-component')
+        # two local stores on ONE manager-backed pointer, stepped through
+        # adversarial interleavings by C06's cooperative scheduler: every
+        # index handed out must come from a block granted to THAT store only
+        from c06 import run_real as sched_run, judge as sched_judge
+        two = [(1, [[(0, 4), (0, 5)], [(0, 6), (0, 7)]]),
+               (2, [[(0, 4), (1, 5), (0, 6)], [(0, 7), (0, 8), (2, 9)]]),
+               (3, [[(0, 0), (0, 1)], [(0, 5), (0, 1), (0, 6), (0, 7)]])]
+        for b, progs in two:
+            scheds = [[0, 1] * 40, [1, 0] * 40, [0, 0, 1, 1] * 20]
+            scheds += [[0] * k + [1] * 8 + [0] * 8 for k in range(1, 7)]
+            for sc_ in scheds:
+                try:
+                    o = sched_run(b, progs, sc_)
+                    bad = sched_judge(b, o)
+                except Exception as exc:  # pylint: disable=broad-except
+                    o, bad = {}, [f"run raised {type(exc).__name__}: {exc}"]
+                chk.coverage['evaluations'] += 1
+                chk.dist('two-stores-one-pointer-schedules')
+                for x in bad[:1]:
+                    chk.violation(
+                        f"store-two-workers bsize={b}: "
+                        f"{x.split(':')[0].split(' [')[0][:50]}",
+                        {'clause_violated': bad[:5],
+                         'prealloc_block_size': b,
+                         'programs (namespace, value id) per store': progs,
+                         'schedule': o.get('schedule'),
+                         'blocks': o.get('blocks'),
+                         'handed (index, value)': o.get('handed'),
+                         'shared_data': (o.get('shared') or [None])[0]})
         # a manager-backed store used by its creator BEFORE worker
         # processes are forked (real processes)
         if mgr is None:
